@@ -456,7 +456,7 @@ func c20Scenarios(thorough bool) []KdcScenario {
 func c20(env *Env, rep *Report) {
 	scs := c20Scenarios(env.thorough())
 	rep.Rule = fmt.Sprintf("%d request scenarios against the real kdcproxy handler with scripted KDC connections: 1 KDC: realms {default, absent, second, unknown; for two sizes also a child realm with its own KDC, an unconfigured realm below a [domain_realm] suffix of the parent realm, and requests whose optional elements are present with zero / large values (dclocator-hint 0, empty target-domain, hint 0x40000000)} x Kerberos payload sizes {0,1,3,4,5,100,1500,65535,128KiB-32} x UDP behaviour {reply, silent, refuse} x TCP behaviour {reply then close, reply and keep open, reply in two writes, half a reply then close, close at once, silent, refuse}; 2 and 3 KDCs: every combination of those behaviours (quick: 3 KDCs without two-writes/close-at-once); KDC replies of 1465 / 4096 / 4097 / 9000 / 60000 / 65507 bytes over UDP and 4097 / 65536 / 100000 bytes over TCP. "+
-		"Each runs under the default schedule with deadlines firing at quiescence; selected scenarios additionally under every schedule of handler, reply readers and KDC threads up to the preemption bound. Oracle: KDCs of the right realm receive exactly the embedded message (TCP with, UDP without the 4-byte prefix); if any connection delivers a complete reply the response is 200 and its kerb-message is exactly one KDC's reply (length-prefixed); otherwise an error status; always an HTTP response and no goroutine left. Histories: 32 ordered pairs of requests in one process (first: each realm form, answered or not; second: each realm form), the second judged like a first request. Two requests at the same time (same realm, two realms, parent and child realm; KDCs that reply, stay silent, refuse, reply half) under every schedule up to the deviation bound: each is answered as if alone, by the reply of a connection that received its own message, without waiting for the other's deadline, and every KDC connection is closed. Malformed requests are part of C10(d). Binding: the real rdpgw binary with a kerberos configuration and scripted KDCs on loopback TCP/UDP sockets (realms whose KDC replies over TCP, over UDP, stays silent, refuses TCP, truncates its reply; unknown realm; other methods; malformed bodies): every request gets an HTTP response with the status and bytes above. distinct_nontrivial = distinct scenarios.", len(scs))
+		"Each runs under the default schedule with deadlines firing at quiescence; selected scenarios additionally under every schedule of handler, reply readers and KDC threads up to the preemption bound. Oracle: KDCs of the right realm receive exactly the embedded message (TCP with, UDP without the 4-byte prefix); if any connection delivers a complete reply the response is 200 and its kerb-message is exactly one KDC's reply (length-prefixed); otherwise an error status; always an HTTP response and no goroutine left. Histories: 32 ordered pairs of requests in one process (first: each realm form, answered or not; second: each realm form), the second judged like a first request. Two requests at the same time (same realm, two realms, parent and child realm; KDCs that reply, stay silent, refuse, reply half) under every schedule up to the deviation bound: each is answered as if alone, by the reply of a connection that received its own message, without waiting for the other's deadline, and every KDC connection is closed. Requests that are to be rejected (the bodies of C10 (d): other methods, no length, over 128 KiB, truncated / trailing / wrong tags / lying lengths) get 405 / 411 / 413 / 400 and nothing is sent to a KDC. Binding: the real rdpgw binary with a kerberos configuration and scripted KDCs on loopback TCP/UDP sockets (realms whose KDC replies over TCP, over UDP, stays silent, refuses TCP, truncates its reply; unknown realm; other methods; malformed bodies): every request gets an HTTP response with the status and bytes above. distinct_nontrivial = distinct scenarios.", len(scs))
 	rep.Assumptions = append(rep.Assumptions,
 		"a UDP write of more than 65507 bytes fails with EMSGSIZE, as on a real socket",
 		"KDC order is randomised by gokrb5 (math/rand) and by map iteration: behaviours are assigned to connections in dial order, so the execution structure does not depend on it",
@@ -499,6 +499,21 @@ func c20(env *Env, rep *Report) {
 	}
 	distinct := bindKdc(rep, env)
 	distinct += c20PairExplore(env, rep, bound)
+	// requests that are to be rejected (not POST, no length, over 128 KiB, not valid DER, trailing bytes, lying
+	// inner length prefix): the status the property names and nothing sent to any KDC (the same bodies are
+	// part of C10 (d), judged there for panics and hangs)
+	for i, sc := range c10KdcScenarios() {
+		if !env.mine(i) {
+			continue
+		}
+		distinct++
+		rep.add("executions", 1)
+		v, d, code := c10KdcOne(sc)
+		rep.outcome(fmt.Sprintf("rejected-request verdict=%s code=%d", v, code))
+		if v != "" {
+			rep.violate("C20/request-to-be-rejected/"+v+"/"+sc.Name, d, map[string]any{"engine": "enum", "part": "kdc", "scenario": sc.Name, "noreplay": true})
+		}
+	}
 	maxEx := 40000
 	if env.thorough() {
 		maxEx = 400000
